@@ -158,7 +158,7 @@ def from_tree(n, symbol_of, opaque_calls=()):
 def parse(text):
     """reference formula from a small infix text: symbols, decimal literals, + - * / ^int and parentheses"""
     import re
-    toks = re.findall(r"\s*([A-Za-z_][A-Za-z_0-9.]*|\d+\.?\d*(?:[eE][-+]?\d+)?|[-+*/^()])", text)
+    toks = re.findall(r"\s*([A-Za-z_][A-Za-z_0-9.@]*|\d+\.?\d*(?:[eE][-+]?\d+)?|[-+*/^()])", text)
     pos = [0]
 
     def peek():
